@@ -201,7 +201,7 @@ def _check_call(ctx, run, model, fam, n, subject, may_refuse=False):
                 dens = refs.density(fam, theta, np.clip(u, 1e-300, 1.0), v)
                 h_lo = refs.hfunc(fam, theta, np.full(n, EPS32), v)
             tol = 1e-6 + 1e-9 * np.where(np.isfinite(dens), dens, 0.0)
-            at_end = (u <= EPS32 * 1.01) & (c <= h_lo + 1e-12) | (u >= 1.0 - 1e-9)
+            at_end = ((u <= EPS32 * 1.01) & (c <= h_lo + 1e-12)) | ((u >= 1.0 - 1e-9) & (c >= 1.0 - 1e-6))
             degenerate = ~np.isfinite(h) | (v <= 0) | (v >= 1)
             bad = (np.abs(h - c) > tol) & ~at_end & ~degenerate
             ctx.probes['root_at_bracket_end'] += int(np.sum(at_end))
